@@ -131,12 +131,13 @@ func FocusFor(prop string, tier string) Focus {
 	case "C08":
 		mul(3, KRespond)
 		mul(2, KCall)
+		f.MultiPct = 15
 	case "C09", "C10", "C11":
 		mul(3, KPause, KStart, KKill, KUpdateCtx)
 		mul(2, KCall, KModPause, KModStart)
+		f.MultiPct = 15
 		if prop == "C11" {
 			f.Boundary = 10
-			f.MultiPct = 15
 		}
 		if prop == "C10" {
 			// C10 quantifies over messages, batch starts and expiries; a zero-height restart cancels the
@@ -147,6 +148,7 @@ func FocusFor(prop string, tier string) Focus {
 	case "C12":
 		mul(4, KModCreate)
 		mul(2, KRespond, KModPause, KModStart, KModKill, KModUpdate)
+		f.MultiPct = 15
 	case "C13":
 		mul(4, KWithdraw)
 		mul(3, KRespond)
@@ -154,11 +156,15 @@ func FocusFor(prop string, tier string) Focus {
 		f.PrefixProv = 50
 		f.PreludePct = 75
 		f.ModSvcPct = 30
+		f.MultiPct = 15
 	case "C15":
 		mul(3, KDefine, KBind)
 		mul(2, KUpdateBind)
+		f.MultiPct = 15
 	case "C16":
 		mul(2, KCall, KRespond, KKill, KPause)
+		f.MultiPct = 15
+	case "C17", "C18":
 		f.MultiPct = 15
 	case "C19":
 		f.Only20Pct = 60
@@ -168,6 +174,9 @@ func FocusFor(prop string, tier string) Focus {
 		f.Boundary = 10
 		f.ModSvcPct = 30
 		mul(2, KWithdraw, KRespond)
+	}
+	if v := os.Getenv("VERIF_MULTIPCT"); v != "" { // experiments only
+		fmt.Sscan(v, &f.MultiPct)
 	}
 	if v := os.Getenv("VERIF_DENOMPCT"); v != "" {
 		fmt.Sscan(v, &f.DenomChangePct)
